@@ -499,6 +499,54 @@ def u11(ctx, rid):
     c01.r3(ctx, rid)
 
 
+def u12(ctx, rid):
+    """a plain `write` checks for a duplicate by key alone: it hands `None` metadata to the common writer (with `Some(empty map)` the
+    duplicate check becomes "a live record whose metadata equals the empty map" and a key whose live records all carry metadata
+    is stored again)"""
+    prog = ctx.prog
+    f = prog.body_of('storage::core::Storage::<K>::write')
+    if f is None:
+        raise core.AnchorLost('Storage::write')
+    n = 0
+    for c in f.calls:
+        if c.bb not in f.reachable() or c.name == 'poll':
+            continue
+        tg = [t for t in prog.resolve(c) if t in prog.fns and t.startswith('storage::core::Storage')]
+        if not tg:
+            continue
+        metas = [a for a in c.args if op_local(a) is not None and 'record::record::Meta' in f.locals[op_local(a)]['s']]
+        for a in metas:
+            n += 1
+            ogs = core.origins(f, a)
+            if ogs and all(o.kind == 'agg' and o.data.get('variant') == 'None' for o in ogs):
+                ctx.ok(rid, 'plain-write-has-no-meta', c.where(), 'write() passes None metadata')
+            else:
+                ctx.bad(rid, 'plain-write-has-no-meta', c.where(), 'Storage::write hands metadata (%s) to the writer instead of None: with duplicates disallowed the duplicate check of a plain write is no longer "is the key live" but "is there a live record with exactly this metadata"' % [repr(o)[:50] for o in ogs][:2])
+    if n < 1:
+        raise core.AnchorLost('metadata argument of the writer called from Storage::write: %d' % n)
+
+
+def u13(ctx, rid):
+    """`delete` marks every closed blob in which the key is live: per-blob liveness decides, so delete_core reaches the
+    closed-blob pass on every path that returns Ok - it is never short-cut by a cross-blob lookup (the global winner can be a
+    marker while another blob still holds live older records)"""
+    prog = ctx.prog
+    f = prog.body_of('storage::core::Storage::<K>::delete_core')
+    if f is None:
+        raise core.AnchorLost('Storage::delete_core')
+    closed = [c for c in f.calls if c.name != 'poll' and c.bb in f.reachable() and any(t.endswith('::delete_in_closed') for t in prog.resolve(c))]
+    if not closed:
+        raise core.AnchorLost('delete_in_closed call in delete_core')
+    done = [core.completion_block(f, c) for c in closed]
+    done = [d for d in done if d is not None]
+    exits = [bb for (bb, k, _) in core.exit_defs(f) if k in ('ok', 'val') and bb in f.reachable()]
+    key = 'closed-blobs-always-visited|storage::core::Storage::<K>::delete_core'
+    if any(e in f.reach_from([0], avoid_enter=done) for e in exits):
+        ctx.bad(rid, key, f.where(), 'delete_core can return Ok without having visited the closed blobs: a blob in which the key is still live keeps its records unmarked and the returned count is too small')
+    else:
+        ctx.ok(rid, key, closed[0].where(), 'every Ok return follows the completed closed-blob pass')
+
+
 RULES = [
     Rule('C02.U1', 'the append in the write path is dominated by the duplicate policy branch; a found duplicate is acknowledged without storing', u1, 1),
     Rule('C02.U2', 'closed blobs are only ever marked with only_if_presented = true', u2, 2),
@@ -510,5 +558,7 @@ RULES = [
     Rule('C02.U9', 'on-disk version lists: leaf cursors move by whole record headers (C04.T12 instances)', u9, 4),
     Rule('C02.U10', 'equal timestamps: the in-memory insertion position is behind every record with the same timestamp (append recency)', u10, 1),
     Rule('C02.U11', 'the cross-blob merge keeps the first-seen result on ties and ranks NotFound below every record (C01.R3 instances)', u11, 2),
+    Rule('C02.U12', 'a plain write passes None metadata to the duplicate check', u12, 1),
+    Rule('C02.U13', 'delete_core visits the closed blobs on every path that returns Ok', u13, 1),
     Rule('C02.U6', 'the point lookup consults every candidate closed blob before it returns Ok', u6, 1),
 ]
